@@ -314,4 +314,8 @@ pub enum Action {
     DropVar(VarId),
     Stabilise,
     StabiliseUntilStable,
+    /// render the observed graph as GraphViz text (must not panic)
+    Dot,
+    /// node-level update handler (`Incr::on_update`)
+    OnUpdate(NodeId),
 }
